@@ -45,19 +45,33 @@ def store_half(ctx):
         ctx.cov["states"] += r.distinct
         ctx.cov["transitions"] += r.generated
         ctx.notes.setdefault("tlc", {})[cfg] = {"states_distinct": r.distinct, "histories": n}
-        rc, out, err = run_vh(ctx, ["h5io", cases, workdir(ctx)], timeout=3000)
-        if rc != 0:
-            ctx.report({"kind": "crash"}, "package io crashed while replaying H5Store histories: " + err[-1200:], {"stderr": err[-4000:]})
-            continue
-        s = last_json(out)
-        ctx.cov["evaluations"] += s["evaluations"]
-        ctx.cov["distinct_nontrivial"] += s["distinct_nontrivial"]
-        ctx.cov["traces_validated_against_impl"] += s["evaluations"]
-        ctx.notes.setdefault("engine", []).append(s["extra"])
-        for smp in s["samples"][:1]:
-            ctx.sample(smp)
-        for m in s["mismatches"]:
-            ctx.report({"kind": m["kind"]}, "%s step %d: %s" % (m["type"], m["step"], m["detail"]), m)
+        # the engine is sequential per process (one file at a time): split the histories over 8 processes
+        nchunks = 8
+        with open(cases) as f:
+            lines = f.readlines()
+        chunks = []
+        for k in range(nchunks):
+            cp = "%s.%d" % (cases, k)
+            with open(cp, "w") as out:
+                out.writelines(lines[k::nchunks])
+            chunks.append(cp)
+        from concurrent.futures import ThreadPoolExecutor
+        ctx.build_vh()
+        with ThreadPoolExecutor(nchunks) as ex:
+            results = list(ex.map(lambda cp: run_vh(ctx, ["h5io", cp, workdir(ctx)], timeout=3000), chunks))
+        for rc, out, err in results:
+            if rc != 0:
+                ctx.report({"kind": "crash"}, "package io crashed while replaying H5Store histories: " + err[-1200:], {"stderr": err[-4000:]})
+                continue
+            s = last_json(out)
+            ctx.cov["evaluations"] += s["evaluations"]
+            ctx.cov["distinct_nontrivial"] += s["distinct_nontrivial"]
+            ctx.cov["traces_validated_against_impl"] += s["evaluations"]
+            ctx.notes.setdefault("engine", []).append(s["extra"])
+            for smp in s["samples"][:1]:
+                ctx.sample(smp)
+            for m in s["mismatches"]:
+                ctx.report({"kind": m["kind"]}, "%s step %d: %s" % (m["type"], m["step"], m["detail"]), m)
     if not ctx.quick:
         r = ctx.tlc("MCH5Store", cfg="H5Store_laws.cfg", timeout=2400)
         r.require_ok("laws")
